@@ -260,7 +260,7 @@ func (c *ctx) session5Facts() {
 	fd = c.funcDecl(c.files, "WriteDedupQueue", "GetChunk")
 	var rs []string
 	if fd != nil {
-		walk(fd.Body, func(n ast.Node) bool {
+		walkThrough(fd.Body, nil, func(n ast.Node) bool {
 			switch t := n.(type) {
 			case *ast.CallExpr:
 				fn := exprString(t.Fun)
@@ -297,7 +297,7 @@ func (c *ctx) session5Facts() {
 		seen := map[string]bool{}
 		var qs []string
 		if fd != nil {
-			walk(fd.Body, func(n ast.Node) bool {
+			walkThrough(fd.Body, nil, func(n ast.Node) bool {
 				if sel, ok := n.(*ast.SelectorExpr); ok && strings.HasSuffix(sel.Sel.Name, "Queue") && !seen[sel.Sel.Name] {
 					seen[sel.Sel.Name] = true
 					qs = append(qs, sel.Sel.Name)
@@ -574,8 +574,10 @@ func (c *ctx) cmdDelegates() {
 					callPos = call.Pos()
 					found = true
 					args := []string{}
-					for _, a := range call.Args {
-						args = append(args, exprString(a))
+					for _, a := range call.Args { // which options reach the library call; how the locals are called does not matter
+						if as := exprString(a); strings.HasPrefix(as, "opt.") {
+							args = append(args, as)
+						}
 					}
 					sh = append(sh, "call("+strings.Join(args, ",")+")")
 				}
@@ -640,23 +642,7 @@ func chunkProvenance(fd *ast.FuncDecl) []string {
 		return nil
 	}
 	idParam := paramOfType(fd, "ChunkID")
-	norm := func(e ast.Expr) string {
-		if call, ok := e.(*ast.CallExpr); ok {
-			fn := exprString(call.Fun)
-			switch {
-			case strings.HasSuffix(fn, ".GetChunk") && len(call.Args) == 1:
-				a := exprString(call.Args[0])
-				if a == idParam && idParam != "" {
-					a = "id"
-				}
-				return "member.GetChunk(" + a + ")"
-			case strings.HasSuffix(fn, ".wait"):
-				return "wait()"
-			}
-			return "call:" + fn
-		}
-		return exprString(e)
-	}
+	norm := func(e ast.Expr) string { return normProv(e, idParam) }
 	// sources of each identifier (position 0 of an assignment / type-switch binding)
 	src := map[string][]string{}
 	walk(fd.Body, func(n ast.Node) bool {
@@ -728,6 +714,37 @@ func chunkProvenance(fd *ast.FuncDecl) []string {
 	})
 	sort.Strings(out)
 	return out
+}
+
+// normProv names where an expression's value comes from
+func normProv(e ast.Expr, idParam string) string {
+	call, ok := e.(*ast.CallExpr)
+	if !ok {
+		return exprString(e)
+	}
+	fn := exprString(call.Fun)
+	switch {
+	case strings.HasSuffix(fn, ".GetChunk") && len(call.Args) == 1:
+		a := exprString(call.Args[0])
+		if a == idParam && idParam != "" {
+			a = "id"
+		}
+		return "member.GetChunk(" + a + ")"
+	case strings.HasSuffix(fn, ".wait"):
+		return "wait()"
+	}
+	if resolveLocal(call) != nil && len(call.Args) > 0 { // a local helper hands on what it is given
+		var parts []string
+		for _, a := range call.Args {
+			if p := normProv(a, idParam); p != "" && p != "nil" {
+				parts = append(parts, p)
+			}
+		}
+		if len(parts) == 1 {
+			return parts[0]
+		}
+	}
+	return "call:" + fn
 }
 
 // decisionTable interprets the statements of a function body whose control flow is if / tagless switch / return over
